@@ -235,6 +235,16 @@ End Bytes.
    term constructor. [Raw i] is the i-th input, [Emp] the default argument b''. *)
 Inductive term : Type := Raw (i : N) | Emp | HT (l r : term).
 
+(* interpretation of a free term in an arbitrary algebra (H, e) under a valuation of the inputs *)
+Fixpoint interp {T} (H : T -> T -> T) (e : T) (v : N -> T) (t : term) : T :=
+  match t with
+  | Raw i => v i
+  | Emp => e
+  | HT l r => H (interp H e v l) (interp H e v r)
+  end.
+Definition map_outcome {X Y} (f : X -> Y) (o : outcome X) : outcome Y :=
+  match o with Done t => Done (f t) | IndexError => IndexError | OutOfFuel => OutOfFuel end.
+
 (* postfix serialisation (compact literal on the harness side): Emp = 00, Raw i = 01 hi lo,
    HT l r = ser l ++ ser r ++ 02 *)
 Fixpoint ser (t : term) : bytes :=
@@ -243,6 +253,18 @@ Fixpoint ser (t : term) : bytes :=
   | Raw i => [x01; b8 (i / 256); b8 i]
   | HT l r => ser l ++ ser r ++ [x02]
   end.
+
+(* a stack-machine reader of the postfix form (used to show that [ser] loses nothing) *)
+Fixpoint deser (l : bytes) (st : list term) : option (list term) :=
+  match l with
+  | [] => Some st
+  | x00 :: r => deser r (Emp :: st)
+  | x01 :: hi :: lo :: r => deser r (Raw (Byte.to_N hi * 256 + Byte.to_N lo) :: st)
+  | x02 :: r => match st with b :: a :: st' => deser r (HT a b :: st') | _ => None end
+  | _ => None
+  end.
+Fixpoint small (t : term) : Prop :=
+  match t with Raw i => (i < 65536)%N | Emp => True | HT l r => small l /\ small r end.
 
 Definition ser_outcome (o : outcome term) : bytes :=
   match o with Done t => ser t | IndexError => [xff] | OutOfFuel => [xfe] end.
